@@ -330,6 +330,7 @@ func TestVX_C07(t *testing.T) {
 			}
 		}
 	}
+	lifetimeCases(r, "open", func() bool { n++; return vx.MineIdx(n) })
 	// large messages (sparse single-bit flips: see sparseAt)
 	type big struct{ pl, al, nl, tag int }
 	bigs := []big{{2048, 13, 12, 16}, {4096, 0, 12, 16}, {4097, 13, 16, 16}, {65537, 5, 12, 12}, {33, 4096, 12, 16}, {20, 65537, 16, 16}, {8192, 8192, 12, 14}}
